@@ -42,7 +42,58 @@ def run(prog, an, rep):
                              session_writers, function_views,
                              basic_auth_table, put_job_callers,
                              repository_identity, validation_before_job,
-                             branch_grammar, json_settings_note])
+                             branch_grammar, validated_params_win,
+                             json_settings_note])
+
+
+def validated_params_win(prog, an, rep):
+    """APIJob.__init__: the validated URL parameters are written into the
+    job's first settings map AFTER the request body was put there, so a body
+    key of the same name can never replace them."""
+    R = 'C14.ARG.validated-params-win'
+    f = need_func(an, 'bert_e.job.APIJob.__init__')
+    c = an.cfg(f)
+    sup = [n for n in c.nodes.values() if n.kind == 'stmt' and
+           'super().__init__(' in src(n.ast)]
+    upd = [n for n in c.nodes.values() if n.kind == 'stmt' and
+           src(n.ast) == 'self.settings.update(self.kwargs)']
+    kw_ = [v for n in walk_local(f.node, include_root=False)
+           if isinstance(n, ast.Assign) and
+           src(n.targets[0]) == 'self.kwargs' for v in [n.value]]
+    rep.evaluated()
+    ok = len(sup) == 1 and len(upd) == 1 and \
+        [src(v) for v in kw_] == ['kwargs or {}']
+    rep.check(ok, R, f.qname + ': self.settings.update(self.kwargs) with '
+              'kwargs = the URL parameters', f.where(),
+              'the validated URL parameters are no longer written over the '
+              'request body (update sites: %d, kwargs bound as %s)' % (
+                  len(upd), [src(v) for v in kw_]))
+    if not ok:
+        return
+    o, path = c.must_pass(c.done_of(sup[0]), upd[0].id)
+    rep.check(o, R, f.qname + ': URL parameters are applied after the body '
+              'settings exist', f.where(upd[0]), 'the update runs before '
+              'the settings chain is built', path=c.describe_path(path))
+    # no later write to the first map
+    later = [n for n in c.nodes.values() if n.kind == 'stmt' and
+             n.id != upd[0].id and 'self.settings' in src(n.ast) and
+             isinstance(n.ast, (ast.Assign, ast.Expr)) and
+             c.path(upd[0].id, n.id, use_exc=False) is not None]
+    rep.check(not later, R, f.qname + ': nothing overwrites the settings '
+              'after the URL parameters', f.where(), 'settings are written '
+              'again after the validated parameters: %s' %
+              [src(n.ast)[:40] for n in later])
+    # Job.__init__ takes settings positionally first in the chain and
+    # SettingsDict.update writes into the first map
+    sd = need_func(an, 'bert_e.lib.settings_dict.SettingsDict.update')
+    rep.check('self._wrapped.update(other)' in src(sd.node), R,
+              sd.qname + ': update writes into the chain (first map)',
+              sd.where(), 'SettingsDict.update changed')
+    # APIJob parameters: no `settings` re-routing
+    rep.check('settings' not in f.params, R, f.qname + ': does not '
+              'intercept the settings argument', f.where(),
+              'APIJob.__init__ now takes `settings` itself: the order in '
+              'which body and URL parameters are merged changed')
 
 
 def _list_const(prog, mod, name):
